@@ -141,7 +141,7 @@ func (c Keys) NewWorker(stats *engine.Stats) (engine.Worker, error) {
 		}
 	}
 	w.root = &keysNode{S: st, M: keyModel{Cur: map[string]map[int]string{}, Known: map[string]map[string]knownEnt{}}, Removed: map[int]bool{}}
-	for _, cid := range w.cons {
+	for _, cid := range append(append([]string{}, w.cons...), "4") {
 		w.root.M.Cur[cid] = map[int]string{}
 		w.root.M.Known[cid] = map[string]knownEnt{}
 	}
@@ -212,7 +212,11 @@ func (w *keysWorker) build() {
 			vi   int
 			cid  string
 			keys []string
-		}{2, "2", []string{"k1"}})
+		}{2, "2", []string{"k1"}}, struct {
+			vi   int
+			cid  string
+			keys []string
+		}{1, "4", []string{"k2"}}) // a registered consumer that never launches (no light client)
 	}
 	for _, dt := range dts {
 		dt := dt
@@ -472,6 +476,22 @@ func (w *keysWorker) invariants(c *keysNode, when string) []V {
 			return o
 		}
 		return "removed:" + sdk.ConsAddress(provCons).String()
+	}
+	// C02 ("its consensus key is the key it assigned for that consumer or else its provider key"): a key
+	// assignment must belong to an existing validator — a record that outlives its validator would be
+	// inherited by whoever later registers that consensus address
+	next, _ := p.K.GetConsumerId(ctx)
+	for i := uint64(0); i < next; i++ {
+		cid := fmt.Sprint(i)
+		if !w.active(ctx, cid) {
+			continue
+		}
+		cc := cid
+		for _, e := range p.K.GetAllValidatorConsumerPubKeys(ctx, &cc) {
+			if _, ok := provKey[sdk.ConsAddress(e.ProviderAddr).String()]; !ok {
+				vs = append(vs, vf("C02", "assignment-outlives-validator", "consumer %s (%s) still holds a key assignment of %s, which is no longer a validator (%s)", cid, p.K.GetConsumerPhase(ctx, cid), sdk.ConsAddress(e.ProviderAddr), when))
+			}
+		}
 	}
 	for _, cid := range w.cons {
 		if !w.active(ctx, cid) {
